@@ -108,8 +108,8 @@ pub fn fix_ops(a: &[B], b: &[B], ops: &[Op]) -> Vec<Op> {
     canon
 }
 
-pub const DIR_NAMES: &[&str] = &["src", "lib", "doc", "include", "d", "kernel"];
-pub const FILE_NAMES: &[&str] = &["f.c", "main.rs", "Makefile", "README", "t.txt", "x.h", "noext", "a.b.c", "conf.in", "z"];
+pub const DIR_NAMES: &[&str] = &["src", "lib", "doc", "include", "d", "kernel", "a..b"];
+pub const FILE_NAMES: &[&str] = &["f.c", "main.rs", "Makefile", "README", "t.txt", "x.h", "noext", "a.b.c", "conf.in", "z", "v1..v2.txt", "old...c"];
 pub const NASTY_NAMES: &[&str] = &["w s.txt", "tab\there", "uml\u{e4}ut.c", "q\"uote", "back\\slash", "sp ace/f", "gar\u{e7}on.c", "stra\u{df}e.h", "bell\u{7}.txt"];
 
 #[derive(Clone, Copy, Debug, PartialEq, Serialize, Deserialize)]
@@ -144,6 +144,9 @@ pub struct Dialect {
     /// other spellings of the same path: 1 = a doubled slash, 2 = an interior "/./", 3 = a leading "./"
     /// (in place of the first component to strip, or in front of the name at -p0)
     pub spelling: u8,
+    /// names whose only special character is the blank are written bare and followed by a TAB on the ---/+++
+    /// lines (what git does, and GNU diff before it started quoting)
+    pub bare_spaces: bool,
 }
 
 pub fn gen_dialect(ch: &mut Chooser, allow_git: bool) -> Dialect {
@@ -169,6 +172,7 @@ pub fn gen_dialect(ch: &mut Chooser, allow_git: bool) -> Dialect {
         garbage: ch.chance(1, 3),
         same_prefix: ch.chance(1, 4),
         spelling: if header != HeaderKind::Git && ch.chance(1, 6) { 1 + ch.below(3) as u8 } else { 0 },
+        bare_spaces: ch.chance(1, 2),
     }
 }
 
@@ -190,7 +194,16 @@ pub fn prefixes(d: &Dialect) -> (String, String) {
     (pa, pb)
 }
 
+/// is the blank the only character of the name that would need quoting?
+pub fn only_blanks_special(name: &str) -> bool {
+    name.contains(' ') && !name.bytes().any(|c| c == b'\t' || c == b'"' || c == b'\\' || c < 0x20 || c >= 0x7f)
+}
+
 pub fn render_name(d: &Dialect, prefix: &str, path: &str, force_quote: bool) -> Vec<u8> {
+    render_name_opt(d, prefix, path, force_quote, false)
+}
+
+pub fn render_name_opt(d: &Dialect, prefix: &str, path: &str, force_quote: bool, bare: bool) -> Vec<u8> {
     let mut full = format!("{}{}", prefix, path);
     match d.spelling {
         1 => full = full.replacen('/', "//", 1),
@@ -199,6 +212,9 @@ pub fn render_name(d: &Dialect, prefix: &str, path: &str, force_quote: bool) -> 
             full = if d.strip == 0 { format!("./{}", full) } else { format!("./{}", &full[full.find('/').map_or(0, |i| i + 1)..]) };
         }
         _ => {}
+    }
+    if bare {
+        return full.into_bytes();
     }
     let must = needs_quote(full.as_bytes());
     match d.quote {
@@ -273,22 +289,30 @@ pub fn build_file_patch(ch: &mut Chooser, d: &Dialect, chg: &FileChange, ops: &[
     }
     let (pa, pb) = prefixes(d);
     let force_q = d.quote != Quote::None && ch.chance(1, 2);
+    // git style for names with blanks: bare, a TAB behind the name on the ---/+++ lines
+    let bare = d.bare_spaces && d.quote == Quote::None && !hunks.is_empty() && (only_blanks_special(&chg.old_path) || only_blanks_special(&chg.new_path)) && !needs_quote(chg.old_path.replace(' ', "").as_bytes()) && !needs_quote(chg.new_path.replace(' ', "").as_bytes());
     let old_name: Vec<u8> = if chg.old.is_none() {
         b"/dev/null".to_vec()
     } else if d.orig_style && !chg.rename && chg.old_path == chg.new_path && chg.new.is_some() {
-        render_name(d, &pa, &format!("{}.orig", chg.old_path), force_q)
+        render_name_opt(d, &pa, &format!("{}.orig", chg.old_path), force_q, bare)
     } else {
-        render_name(d, &pa, &chg.old_path, force_q)
+        render_name_opt(d, &pa, &chg.old_path, force_q, bare)
     };
-    let new_name: Vec<u8> = if chg.new.is_none() { b"/dev/null".to_vec() } else { render_name(d, &pb, &chg.new_path, force_q) };
+    let new_name: Vec<u8> = if chg.new.is_none() { b"/dev/null".to_vec() } else { render_name_opt(d, &pb, &chg.new_path, force_q, bare) };
+    let tab = |mut v: Vec<u8>| -> Vec<u8> {
+        if bare {
+            v.push(b'\t');
+        }
+        v
+    };
     let mut fp = FilePatchSpec::default();
     if d.garbage {
         fp.garbage = gen_garbage(ch);
     }
     match d.header {
         HeaderKind::Plain => {
-            fp.minus = Some(B(old_name));
-            fp.plus = Some(B(new_name));
+            fp.minus = Some(B(tab(old_name)));
+            fp.plus = Some(B(tab(new_name)));
         }
         HeaderKind::Timestamps => {
             let mut m = old_name;
@@ -300,13 +324,13 @@ pub fn build_file_patch(ch: &mut Chooser, d: &Dialect, chg: &FileChange, ops: &[
         }
         HeaderKind::IndexPreamble => {
             fp.index_preamble = Some(B::new(&chg.new_path));
-            fp.minus = Some(B(old_name));
-            fp.plus = Some(B(new_name));
+            fp.minus = Some(B(tab(old_name)));
+            fp.plus = Some(B(tab(new_name)));
         }
         HeaderKind::Git => {
             // the diff --git line always carries real names
-            let ga = render_name(d, &pa, &chg.old_path, force_q);
-            let gb = render_name(d, &pb, &chg.new_path, force_q);
+            let ga = render_name_opt(d, &pa, &chg.old_path, force_q, bare);
+            let gb = render_name_opt(d, &pb, &chg.new_path, force_q, bare);
             fp.git = Some((B(ga), B(gb)));
             let om = chg.old_mode.unwrap_or(0o644) | 0o100000;
             let nm = chg.new_mode.unwrap_or(0o644) | 0o100000;
@@ -332,8 +356,8 @@ pub fn build_file_patch(ch: &mut Chooser, d: &Dialect, chg: &FileChange, ops: &[
                         fp.git_meta.push(B::new("index 1a2b3c4..5d6e7f8"));
                     }
                 }
-                fp.minus = Some(B(old_name));
-                fp.plus = Some(B(new_name));
+                fp.minus = Some(B(tab(old_name)));
+                fp.plus = Some(B(tab(new_name)));
             }
         }
     }
@@ -361,4 +385,4 @@ pub fn gen_alpha(ch: &mut Chooser) -> Alphabet {
     gen_alphabet(ch)
 }
 
-pub const MODES: &[u32] = &[0o644, 0o755, 0o600, 0o664, 0o444];
+pub const MODES: &[u32] = &[0o644, 0o755, 0o600, 0o664, 0o444, 0o644, 0o755, 0o1755, 0o1644];
